@@ -182,6 +182,64 @@ def extend_usize_wiring(a):
         a.candidates.append(c)
 
 
+def mark_to_location(a):
+    """C10, libyaml boundary: the position attached to an event is libyaml's START mark of that event, line -> line and column -> col
+    (system_mark_to_location copies the two fields unchanged, u64 -> usize); Parser::next hands exactly that location on together
+    with the converted event. What libyaml puts into the mark is assumed."""
+    import mirflow
+    ex = a.exec(r"(?:(?:rules::)?libyaml::util::)?system_mark_to_location", {}, unroll=1, max_paths=50, deepen=False)
+    a.fns.append("rules::libyaml::util::system_mark_to_location")
+    mark = ex.arg_env["_1"]
+    bad = []
+    for p in ex.paths:
+        r = p.ret
+        if p.outcome != "return" or not r or r[0] != "struct" or set(r[2]) != {"line", "col"} or mark[0] != "opaque":
+            bad.append(pc_term(p.pc))
+            continue
+        ln, col = ex.proj.get((mark[1], ".1")), ex.proj.get((mark[1], ".2"))       # yaml_mark_t { index, line, column }
+        ok = ln is not None and col is not None and ln[0] == "int" and col[0] == "int" and r[2]["line"][0] == "int" and r[2]["col"][0] == "int"
+        good = f"(and (= {r[2]['line'][1]} {ln[1]}) (= {r[2]['col'][1]} {col[1]}))" if ok else "false"
+        bad.append(f"(and {pc_term(p.pc)} (not {good}))")
+    c1 = a.discharge("libyaml/system_mark_to_location/line-and-column", ex, bad,
+                     "system_mark_to_location: Location.line is the mark's line and Location.col the mark's column, for every 64-bit value (not swapped, "
+                     "not shifted, the index field plays no part)")
+    ex2 = a.exec(r"(?:rules::)?libyaml::parser::<impl at guard/src/rules/libyaml/parser\.rs:\d+:\d+: \d+:\d+>::next",
+                 {"yaml_parser_parse": lambda ex, av: ("struct", "Success", {"fail": ex.havoc("bool"), "ok": ex.havoc("bool")}),
+                  "convert_event": lambda ex, av: ex.opq(), "system_mark_to_location": lambda ex, av: ex.opq(),
+                  "yaml_event_delete": lambda ex, av: ("unit",), "as_mut_ptr": mirexec.m_identity, "uninit": lambda ex, av: ex.opq()},
+                 unroll=1, max_paths=400, deepen=False)
+    a.fns.append("rules::libyaml::parser::Parser::next")
+    bad2, nok = [], 0
+    for p in ex2.paths:
+        r = p.ret
+        if p.outcome != "return" or not r or r[0] != "enum" or r[1] != "Result":
+            continue
+        okv = r[3].get("Ok")
+        if okv is None or (r[2] == "1"):
+            continue
+        nok += 1
+        ce, ml, pp = calls(p, "convert_event"), calls(p, "system_mark_to_location"), calls(p, "yaml_parser_parse")
+        shape = (len(ce) == 1 and len(ml) == 1 and len(pp) == 1 and okv[0] == "tuple" and okv[1] == [ce[0][3], ml[0][3]]
+                 and ce[0][2][0] == pp[0][2][1] and ml[0][2][0][0] == "opaque")
+        # the mark handed over is field `start_mark` of the event just parsed (yaml_event_t { type_, data, start_mark, end_mark })
+        o, ks = mirflow.origin(ex2, ml[0][2][0]) if shape else (None, None)
+        shape = shape and o == pp[0][2][1] and ks == [".2"]
+        bad2.append(f"(and {pc_term(p.pc)} (= {r[2]} 0) (not {'true' if shape else 'false'}))")
+    c2 = a.discharge("libyaml/Parser::next/start-mark", ex2, bad2,
+                     f"Parser::next ({nok} Ok paths): the event returned is convert_event of the event just parsed, and the location returned with it is "
+                     "system_mark_to_location of THAT event's start_mark (not its end mark, not another event's)")
+    for c in (c1, c2):
+        if c:
+            import mirload
+            c["replay"] = mirload.replay_yaml_positions(a)
+            if not c["replay"].get("reproduced"):
+                r2 = replay_paths(a)
+                if r2.get("reproduced"):
+                    c["replay"] = r2
+            c["reproduced"] = c["replay"].get("reproduced", False)
+            a.candidates.append(c)
+
+
 def replay_paths(a):
     """every failing check's `from.path` must resolve, in the document, to the reported value; the line/column in the
     message must be where that scalar starts in the file text"""
@@ -306,4 +364,4 @@ def replay_leading_whitespace(a):
             "note": "; ".join(t["problem"] for t in tried if "problem" in t) or None}
 
 
-SITES = {"C10": [path_construction, extend_usize_wiring, data_file_text_wiring]}
+SITES = {"C10": [path_construction, extend_usize_wiring, data_file_text_wiring, mark_to_location]}
